@@ -392,3 +392,84 @@ def canon(state):
     out['users'] = sorted(usr.values())
     out['consumer_types'] = sorted(ctn.values())
     return out
+
+
+# --------------------------------------------------------------------------
+# relational comparison of two (possibly symbolic) states
+
+NATURAL_KEYS = {
+    'resource_providers': ('uuid',),
+    'inventories': ('resource_provider_id', 'resource_class_id'),
+    'allocations': ('consumer_id', 'resource_provider_id',
+                    'resource_class_id'),
+    'consumers': ('uuid',),
+    'resource_provider_traits': ('resource_provider_id', 'trait_id'),
+    'resource_provider_aggregates': ('resource_provider_id', 'aggregate_id'),
+    'resource_classes': ('name',),
+    'traits': ('name',),
+    'projects': ('external_id',),
+    'users': ('external_id',),
+    'consumer_types': ('name',),
+    'placement_aggregates': ('uuid',),
+}
+IGNORED_COLS = {'created_at', 'updated_at'}
+CORE_TABLES = ('resource_providers', 'inventories', 'allocations',
+               'consumers', 'resource_provider_traits',
+               'resource_provider_aggregates', 'resource_classes', 'traits')
+
+
+def _by_key(state, table):
+    keycols = NATURAL_KEYS[table]
+    out = {}
+    for r in state[table]:
+        if r.present is False:
+            continue
+        k = tuple(r.vals[c] for c in keycols)
+        if any(isinstance(x, Sym) for x in k):
+            raise NotImplementedError('symbolic natural key in %s' % table)
+        out.setdefault(k, []).append(r)
+    return out
+
+
+def _merged(rows, col):
+    """value of `col` of the (at most one) present row among rows, as an
+    (isnull, value) pair; absent -> NULL"""
+    res = symdb.NULL
+    for r in reversed(rows):
+        res = symdb.ite_nv(r.present, symdb.sqlval(r.vals[col]), res)
+    return res
+
+
+def rel_diff(a, b, tables=CORE_TABLES, skip_cols=()):
+    """z3 Bool (or python bool): the two states differ on the given tables,
+    comparing rows by natural key and ignoring surrogate ids of tables whose
+    natural key is not the id, and timestamps."""
+    diffs = []
+    ev = symdb.Evaluator(None)
+    for t in tables:
+        ka, kb = _by_key(a, t), _by_key(b, t)
+        cols = [c for c in (list(a[t][0].vals) if a[t] else
+                            list(b[t][0].vals) if b[t] else [])
+                if c not in IGNORED_COLS and c not in skip_cols and
+                not (c == 'id' and t in ('allocations', 'inventories',
+                                         'resource_provider_traits',
+                                         'resource_provider_aggregates'))]
+        for k in set(ka) | set(kb):
+            ra, rb = ka.get(k, []), kb.get(k, [])
+            pa = symdb.Or(*[r.present for r in ra])
+            pb = symdb.Or(*[r.present for r in rb])
+            d = symdb.Or(symdb.And(pa, symdb.Not(pb)),
+                         symdb.And(pb, symdb.Not(pa)))
+            if d is not False:
+                diffs.append(d)
+            both = symdb.And(pa, pb)
+            if both is False:
+                continue
+            for c in cols:
+                if c in NATURAL_KEYS[t]:
+                    continue
+                same = ev._same(_merged(ra, c), _merged(rb, c))
+                d = symdb.And(both, symdb.Not(same))
+                if d is not False:
+                    diffs.append(d)
+    return symdb.Or(*diffs)
